@@ -153,6 +153,7 @@ macro_rules! t_c04_str_find_strpat {
     };
 }
 t_c04_str_find_strpat! {c04_str_find_strpat, 4, 2, 11}
+t_c04_str_find_strpat! {c04_str_find_strpat_p3, 4, 3, 15} // tier=quick bound="valid UTF-8 string<=4 bytes, &str pattern<=3 bytes"
 t_c04_str_find_strpat! {c04_str_find_strpat_big, 5, 3, 18} // tier=thorough bound="valid UTF-8 string<=5 bytes, &str pattern<=3 bytes"
 
 macro_rules! t_c04_str_find_charpat {
